@@ -238,6 +238,17 @@ def r02_3(ctx):
     pops = [(n, c) for (n, c) in q.calls(nx, 'self._items.popleft')]
     ctx.ob('R02.3', 'IMapIterator.next:takes-from-the-left', bool(pops) and not q.calls(nx, 'self._items.pop'), nx, None,
            'items leave in the order they were released')
+    # "nothing buffered" and "finished? / wait" are decided in one critical section of the condition: an item (the
+    # last one) released between an unlocked look at the buffer and the locked decision is missed
+    def _locked(c):
+        return any(isinstance(w, ast.With) and any(nx.canon(it.context_expr) == 'self._cond' for it in w.items) and
+                   any(x is c for b in w.body for x in ast.walk(b)) for w in walk_own(nx.node))
+    loose = [c for (n, c) in pops if not _locked(c)]
+    ctx.ob('R02.3', 'IMapIterator.next:buffer-looked-at-under-the-condition', bool(pops) and not loose, nx,
+           loose[0] if loose else None,
+           'every self._items.popleft() is inside `with self._cond`' if not loose else
+           'the buffer is looked at without the condition: a result delivered between that look and the locked '
+           '"all items released?" test makes next() raise StopIteration with the item still buffered')
     rz = [n for n in nx.cfg.where(lambda n: isinstance(n.ast, ast.Raise) and n.ast.exc is not None
                                   and ast.unparse(n.ast.exc) == 'Exception(value)')]
     ok = bool(rz) and all(q.has_guard(nx, n, 'success', False) for n in rz)
